@@ -156,9 +156,9 @@ func (g *c12Gen) ecCase(i int) (crv, typ string, priv, pub []byte) {
 
 func (g *c12Gen) valid() {
 	r := g.r
-	rep := 1
+	rep := 3
 	if g.thor {
-		rep = 6
+		rep = 10
 	}
 	// AES Key Wrap: every constructor × CEK length 16..64 step 8 (and the n = 1 block case)
 	for k := 0; k < 2*rep; k++ {
@@ -300,9 +300,9 @@ func flipBit(r *vf.Rand, b []byte) []byte {
 
 func (g *c12Gen) mutations() {
 	r := g.r
-	n := 40
+	n := 200
 	if g.thor {
-		n = 500
+		n = 2000
 	}
 	ceks := []int{16, 24, 32, 40, 48, 56, 64}
 	for k := 0; k < n; k++ {
